@@ -472,7 +472,11 @@ func (r *Run) observeC(check bool) obs {
 	}
 	sort.Slice(o.inbox, func(i, j int) bool { return o.inbox[i][0] < o.inbox[j][0] })
 	for _, g := range r.callers {
-		o.pcs = append(o.pcs, r.pcOf(g))
+		pc := r.pcOf(g)
+		if g.cancelled {
+			pc += "!"
+		}
+		o.pcs = append(o.pcs, pc)
 	}
 	for _, c := range r.conns {
 		s := "l"
